@@ -269,4 +269,71 @@ Proof.
   destruct (lc_stats c); [rewrite NU, Z.eqb_refl|]; reflexivity.
 Qed.
 
+(* ---- the chunks of a row group ------------------------------------------------------------------------ *)
+Definition contents_of (l : lleaf) (c : lchunk) : list pcontent :=
+  match items_contents (desc_of l) None (lc_items c) with Some cs => cs | None => [] end.
+
+Definition chunk_out (l : lleaf) (start : N) (c : lchunk) : chunk_res :=
+  CHere {| co_meta := chunk_meta l start c;
+           co_pages := summaries (desc_of l) (lc_codec c) (lc_items c);
+           co_cells := concat (map content_cells (contents_of l c));
+           co_nulls := fold_right N.add 0 (map content_nulls (contents_of l c)) |}.
+
+Fixpoint cols_out (ls : list lleaf) (cs : list lchunk) (pos : N) : list chunk_res :=
+  match ls, cs with
+  | l :: ls', c :: cs' => chunk_out l pos c :: cols_out ls' cs' (pos + lenN (chunk_bytes l pos c))
+  | _, _ => []
+  end.
+
+Definition chunk_ok (l : lleaf) (c : lchunk) : Prop :=
+  chunk_wf l c /\ exists contents, items_contents (desc_of l) None (lc_items c) = Some contents.
+
+Lemma enc_cols_pos : forall ls cs pos,
+  snd (enc_cols compress ls cs pos) = pos + lenN (concat (fst (fst (enc_cols compress ls cs pos)))).
+Proof.
+  induction ls as [|l ls IH]; intros cs pos; [cbn; lia|].
+  destruct cs as [|c cs]; [cbn; lia|]. cbn [enc_cols].
+  destruct (enc_chunk compress l pos c) as [b cc] eqn:EC.
+  specialize (IH cs (pos + lenN b)).
+  destruct (enc_cols compress ls cs (pos + lenN b)) as [[bs ccs] pos'] eqn:ER. cbn [fst snd] in *.
+  cbn [concat]. rewrite lenN_app. lia.
+Qed.
+
+Theorem scan_cols_roundtrip strict fstart : forall ls cs pos file pre post,
+  length ls = length cs -> Forall2 chunk_ok ls cs ->
+  file = pre ++ concat (fst (fst (enc_cols compress ls cs pos))) ++ post -> lenN pre = pos -> 4 <= pos ->
+  snd (enc_cols compress ls cs pos) <= fstart ->
+  scan_cols decompress strict file fstart (map leaf_of_l ls) (snd (fst (enc_cols compress ls cs pos)))
+  = ROk (cols_out ls cs pos).
+Proof.
+  induction ls as [|l ls IH]; intros cs pos file pre post LEN OK FILE PRE P4 PF.
+  - destruct cs; [reflexivity|discriminate].
+  - destruct cs as [|c cs]; [discriminate|].
+    assert (OK1 : chunk_ok l c) by (inversion OK; assumption).
+    assert (OKr : Forall2 chunk_ok ls cs) by (inversion OK; assumption).
+    destruct OK1 as [CW [contents IC]]. subst pos.
+    pose proof (enc_cols_pos (l :: ls) (c :: cs) (lenN pre)) as POS.
+    cbn [enc_cols] in *.
+    destruct (enc_chunk compress l (lenN pre) c) as [b cc] eqn:EC.
+    pose proof (enc_cols_pos ls cs (lenN pre + lenN b)) as POS2.
+    destruct (enc_cols compress ls cs (lenN pre + lenN b)) as [[bs ccs] pos'] eqn:ER. cbn [fst snd] in *.
+    cbn [map scan_cols concat] in *.
+    assert (Eb : b = chunk_bytes l (lenN pre) c) by (unfold chunk_bytes; now rewrite EC).
+    assert (Ecc : cc = snd (enc_chunk compress l (lenN pre) c)) by now rewrite EC.
+    rewrite Ecc.
+    rewrite (scan_chunk_roundtrip strict file fstart l (lenN pre) c contents CW IC P4).
+    + cbn [rbind].
+      pose proof (IH cs (lenN pre + lenN b) file (pre ++ b) post) as IH'.
+      rewrite ER in IH'. cbn [fst snd] in IH'. rewrite IH'.
+      * cbn [rbind cols_out]. unfold chunk_out, contents_of. rewrite IC. rewrite <- Eb. reflexivity.
+      * cbn [length] in LEN. lia.
+      * exact OKr.
+      * rewrite FILE, <- !app_assoc. reflexivity.
+      * apply lenN_app.
+      * lia.
+      * exact PF.
+    + rewrite <- Eb. rewrite lenN_app in POS. lia.
+    + rewrite <- Eb. exists pre, (concat bs ++ post). split; [|reflexivity]. rewrite FILE, <- !app_assoc. reflexivity.
+Qed.
+
 End WithCodecs4.
